@@ -23,7 +23,8 @@ def o1(ctx):
     hw_ins, hw_rem = c02._hc_split(crate)
     req = set(C.requeue_functions(crate))
     for mid in C.need("merge", C.merge_functions(crate)):
-        b = crate.bodies[mid]
+        # single-use helpers the merge was split into (analysis part, group part) are looked through
+        b = mir.inline_view(crate, crate.bodies[mid], keep=tuple(C.short(x).split("::")[-1] for x in (set(hw_ins) | set(hw_rem) | req | set(C.uf_setters(crate)))))
         ufs = set(C.uf_setters(crate))
         dep = surv = None
         for c in C.calls_to(crate, b, ufs):
